@@ -104,6 +104,27 @@ theorem C09_no_effect_unless_committed {s0 : Sys} (h : Init s0) (es : List Ev) (
   rw [hci, hc] at hc'; cases hc'
   rw [hcm] at hcm'; cases hcm'
 
+/-- **An error means no effect.** A call that returned an error (`not found`, `exists`, lock lost,
+attempts exhausted) never had an `EXEC` accepted: it has no entry in the log and so, by
+`C09_replay`, changed no row. -/
+theorem C09_error_no_effect {s0 : Sys} (h : Init s0) (es : List Ev) (i : Nat) (w : Writer) (err : WErr)
+    (hc : (s0.run es).clients[i]? = some (.writer w)) (hpc : w.pc = .done (.error err)) :
+    w.committed = false ∧ ∀ c ∈ (s0.run es).log, c.client ≠ i := by
+  have hl := C09_linearizable h es
+  have hnc : w.committed = false := by
+    cases hcm : w.committed with
+    | false => rfl
+    | true =>
+      exfalso
+      obtain ⟨c, hmem, hci⟩ := hl.flagged i w hc hcm
+      obtain ⟨n, hn⟩ := List.getElem?_of_mem hmem
+      obtain ⟨w', _, r, hc', _, hf, _, hd, _⟩ := hl.entries n c hn
+      rw [hci, hc] at hc'; cases hc'
+      rw [hpc] at hf
+      obtain ⟨x, hx⟩ := decide_inr_ok hd
+      rw [hx] at hf; cases hf
+  exact ⟨hnc, C09_no_effect_unless_committed h es i w hc hnc⟩
+
 /-- every storage command of an unfinished call strictly decreases `attemptsLeft * 16 + rank pc`,
 whatever the store contains -/
 theorem C09_measure_decreases (st : RStore) (clock : Int) (fresh i : Nat) (w : Writer) (h : ¬ w.finished) :
@@ -224,6 +245,19 @@ set_option maxRecDepth 8000 in
 example :
     let s := { s0 with dirties := false }.run [.step 0, .step 0, .step 0, .step 0, .expire svr.addr.key, .step 0]
     s.log.length = 1 ∧ s.store.items[svr.addr.key]? = some { svr with version := 1 } := ⟨rfl, by decide⟩
+
+set_option maxRecDepth 100000 in
+/-- A wart the model inherits from `redislock.release` (safe, by the theorems above, but it costs an
+attempt): the ownership check and the `DEL` of the release are separate commands — `tx.Del` is sent
+outside `MULTI…EXEC`, so the release's `WATCH` fences nothing.  Call 0 commits and checks that it
+still owns the lock; the lease expires; call 1 acquires the lock and passes its ownership check;
+call 0's `DEL` then removes call 1's lock; call 1's `EXEC` is refused (the `DEL` modified the
+WATCHed key) although call 1 held the lock legitimately, and the lock key is free for a third call. -/
+example :
+    let s := s0.run [.step 0, .step 0, .step 0, .step 0, .step 0, .step 0, .step 0, .step 0, .expire svr.addr.key,
+      .step 1, .step 1, .step 1, .step 0, .step 1, .step 1]
+    s.clients[1]? = some (.writer { op := ⟨.update, svr, keep⟩, tok := 1, attemptsLeft := 4, pc := .unwatch .retry }) ∧
+      s.store.locks.contains svr.addr.key = false ∧ s.log.length = 1 := ⟨rfl, rfl, rfl⟩
 
 end Example
 
